@@ -12,7 +12,7 @@ META = {
     "level": "proof",
     "design_ref": "DESIGN.md §6 C12, notes/design-value.md",
     "text": "The Lean model (Qentem/Model/Value.lean, ValueOps.lean) gives every operation family of Value a total function on documents (objects keep capacity and removed slots, so Size() and slot numbers are predicted exactly). Theorems state the laws of the abstract document for every document and every operation sequence. Each run feeds the same operation sequences (exhaustive short sequences over a small alphabet, then random sequences with two-operand operations, pointers, every overload variant) to the real code under ASan/UBSan and to the compiled model and compares, after every step, a deep dump (public slot iteration), all typed getters/coercions, key and index probes, == against every root, and Stringify. The laws are additionally evaluated on the implementation's own output.",
-    "note": "Trusted: Lean kernel; axioms ⊆ {propext, Quot.sound, Classical.choice}; the correspondence harness and generators. Not covered: aliasing operands (v += v, v = v[k]), pointer cycles, operator=(ValueType::ValuePtr), real->text and text->number conversions beyond a fixed table (C09/C10), Sort (C15).",
+    "note": "Trusted: Lean kernel; axioms ⊆ {propext, Quot.sound, Classical.choice}; the correspondence harness and generators. Aliasing operands are covered for the container-typed overloads (operand taken from any location of the forest: other root, sibling, descendant, ancestor, the destination itself) and for copy/move between related values; excluded and documented: self move through &&, moving an ancestor's container into its own descendant, pointer cycles, operator=(ValueType::ValuePtr); real->text and text->number conversions beyond a fixed table (C09/C10), Sort (C15).",
 }
 
 THEOREMS = [
